@@ -36,6 +36,9 @@ use tonic::Code;
 pub struct Fault {
     pub rpc: u64,
     pub polls_down: u32,
+    /// the outage starts with a reply cut in the middle of its body (the node dies while answering) instead of a
+    /// connection that is dropped before anything is answered
+    pub cut_reply: bool,
 }
 
 pub struct FaultRun {
@@ -105,7 +108,11 @@ pub fn run_faulted(world: &mut World, cfg0: &TowerCfg, base: &Path, tag: &str, o
     let chain: Arc<SimChain> = Arc::new(world.simchain());
     let btc = FakeBitcoind::start(chain, world.node.clone());
     let down = world.node.down.clone();
-    lock(&world.node.state).outage = Some((fault.rpc, u64::MAX));
+    if fault.cut_reply {
+        lock(&btc.st.0).cut_reply_at_node_rpc = Some(fault.rpc);
+    } else {
+        lock(&world.node.state).outage = Some((fault.rpc, u64::MAX));
+    }
     let mut fr = FaultRun { violation: None, inconclusive: None, hit: false, during: None, blocked_ms: 0, unavailable_answers: 0, polls_during_outage: 0 };
     let empty: BTreeMap<Vec<u8>, u32> = BTreeMap::new();
     let res = run_remote_session(&btc, &datadir, &cfg, &TeosdOpts::default(), StopMode::Kill, |s| -> End {
@@ -313,7 +320,10 @@ pub fn run(seed: u64, shard: u64, nshards: u64, cases: u64, max_faults: usize, p
             Some((_, f)) => faults.push(f.clone()),
             None => {
                 for k in 0..n_rpcs {
-                    faults.push(Fault { rpc: k, polls_down: (k % 3) as u32 });
+                    faults.push(Fault { rpc: k, polls_down: (k % 3) as u32, cut_reply: false });
+                    if k % 2 == 0 {
+                        faults.push(Fault { rpc: k, polls_down: 0, cut_reply: true });
+                    }
                 }
                 if faults.len() > max_faults {
                     let step = faults.len() as f64 / max_faults as f64;
@@ -366,7 +376,7 @@ pub fn run(seed: u64, shard: u64, nshards: u64, cases: u64, max_faults: usize, p
                 r.count("e3o_faults_not_reached", 1);
             }
             if let Some((sig, detail)) = fr.violation {
-                let replay = json!({"engine":"e3o","seed":seed,"case":id,"fault":{"outage":[f.rpc, f.polls_down]},"ops": case.ops.iter().map(|o| o.to_json()).collect::<Vec<_>>()});
+                let replay = json!({"engine":"e3o","seed":seed,"case":id,"fault":{"outage":[f.rpc, f.polls_down, f.cut_reply]},"ops": case.ops.iter().map(|o| o.to_json()).collect::<Vec<_>>()});
                 r.violation(sig, format!("e3o history {id} (real teosd): {detail}"), replay);
             }
             r.sample(|| json!({"engine":"e3o","history": id, "fault": format!("{f:?}"), "during": fr.during, "blocked_ms": fr.blocked_ms}));
